@@ -49,6 +49,12 @@ def boot():
     reactor = SimReactor()
     timain.installReactor(reactor)
 
+    if not os.path.exists(os.path.join(src, "mqtt", "_version.py")):
+        # generated at build time and git-ignored: absent from a bare checkout
+        import types
+        m = types.ModuleType("mqtt._version")
+        m.__version__ = "0+verif"
+        sys.modules["mqtt._version"] = m
     import mqtt
     if not os.path.abspath(mqtt.__file__).startswith(os.path.abspath(src)):
         raise RuntimeError("mqtt imported from %s, expected under %s" % (mqtt.__file__, src))
